@@ -271,9 +271,29 @@ func c26kitDeposit(rng *rand.Rand, walletPKH, refundPKH [20]byte, locktime [4]by
 		RefundLocktime:      locktime,
 	}
 	rng.Read(d.BlindingFactor[:])
+	// degenerate but legal field values: a field that is present is present
+	// whatever its bytes are
+	switch rng.Intn(8) {
+	case 0:
+		d.BlindingFactor = [8]byte{}
+	case 1:
+		d.BlindingFactor = [8]byte{0, 0, 0, 0, 0, 0, 0, 1}
+	}
 	if extra {
 		var e [32]byte
-		rng.Read(e[:])
+		switch rng.Intn(6) {
+		case 0: // all zero
+		case 1:
+			e[31] = 1
+		case 2:
+			e[0] = 0x80
+		case 3:
+			for k := range e {
+				e[k] = 0xff
+			}
+		default:
+			rng.Read(e[:])
+		}
 		d.ExtraData = &e
 	}
 	return d
@@ -393,25 +413,48 @@ func (s *c26kitScenario) Desc() string {
 // Build calls the production assembly function of the scenario. It may be
 // called repeatedly; each call gives a fresh builder.
 func (s *c26kitScenario) Build() (*bitcoin.TransactionBuilder, error) {
+	return s.BuildOn(s.Chain)
+}
+
+// BuildOn assembles the scenario's transaction with the production function,
+// reading previous transactions through the given chain handle.
+func (s *c26kitScenario) BuildOn(ch bitcoin.Chain) (*bitcoin.TransactionBuilder, error) {
 	switch s.Kind {
 	case "sweep":
-		return assembleDepositSweepTransaction(s.Chain, s.Wallet.Pub, s.MainUtxo, s.Deposits, s.Fee)
+		return assembleDepositSweepTransaction(ch, s.Wallet.Pub, s.MainUtxo, s.Deposits, s.Fee)
 	case "redemption":
 		fd := withRedemptionTotalFee(s.Fee)
 		switch s.Shape {
 		case 0:
-			return assembleRedemptionTransaction(s.Chain, s.Wallet.Pub, s.MainUtxo, s.Requests, fd, RedemptionChangeFirst)
+			return assembleRedemptionTransaction(ch, s.Wallet.Pub, s.MainUtxo, s.Requests, fd, RedemptionChangeFirst)
 		case 1:
-			return assembleRedemptionTransaction(s.Chain, s.Wallet.Pub, s.MainUtxo, s.Requests, fd, RedemptionChangeLast)
+			return assembleRedemptionTransaction(ch, s.Wallet.Pub, s.MainUtxo, s.Requests, fd, RedemptionChangeLast)
 		default:
-			return assembleRedemptionTransaction(s.Chain, s.Wallet.Pub, s.MainUtxo, s.Requests, fd)
+			return assembleRedemptionTransaction(ch, s.Wallet.Pub, s.MainUtxo, s.Requests, fd)
 		}
 	case "movingfunds":
-		return assembleMovingFundsTransaction(s.Chain, s.MainUtxo, s.Targets, s.Fee)
+		return assembleMovingFundsTransaction(ch, s.MainUtxo, s.Targets, s.Fee)
 	case "movedsweep":
-		return assembleMovedFundsSweepTransaction(s.Chain, s.Wallet.Pub, s.MovedUtxo, s.MainUtxo, s.Fee)
+		return assembleMovedFundsSweepTransaction(ch, s.Wallet.Pub, s.MovedUtxo, s.MainUtxo, s.Fee)
 	}
 	return nil, fmt.Errorf("unknown kind %q", s.Kind)
+}
+
+// c26kitFaultChain fails the GetTransaction call with the given ordinal.
+type c26kitFaultChain struct {
+	bitcoin.Chain
+	FailAt int
+	Calls  int
+	Failed int
+}
+
+func (c *c26kitFaultChain) GetTransaction(h bitcoin.Hash) (*bitcoin.Transaction, error) {
+	c.Calls++
+	if c.Calls == c.FailAt {
+		c.Failed++
+		return nil, fmt.Errorf("c26kit: scripted bitcoin client failure")
+	}
+	return c.Chain.GetTransaction(h)
 }
 
 // c26kitMain funds a main UTXO of the wallet: kind 0 = none, 1 = P2PKH,
